@@ -1,12 +1,31 @@
 //! Simulated program-start instant (H3). `None` = no plan or no `now=` line: the real clock is used.
+//!
+//! The simulated clock does not tick on its own (s4 has no timers), with one exception: `stdin_delay=<s>` in the plan
+//! models a path list on standard input that takes that many seconds to arrive. An instant asked for after standard
+//! input has been read (its file position is past zero; the driver hands standard input over as a regular file) lies
+//! that much later. "Program start" read at program start is unaffected; read lazily after the list, it is late.
 
 use crate::sched::lock;
+
+extern "C" {
+    fn lseek(fd: i32, offset: i64, whence: i32) -> i64;
+}
 
 /// (seconds since the epoch, nanoseconds)
 pub fn utc_now() -> Option<(i64, u32)> {
     let g = lock();
     match g.as_ref() {
-        Some(s) => s.plan.now,
+        Some(s) => match (s.plan.now, s.plan.stdin_delay) {
+            (Some((sec, ns)), Some(d)) if d > 0 => {
+                let pos = unsafe { lseek(0, 0, 1) };
+                if pos > 0 {
+                    Some((sec + d, ns))
+                } else {
+                    Some((sec, ns))
+                }
+            }
+            (now, _) => now,
+        },
         None => None,
     }
 }
